@@ -141,6 +141,21 @@ example : ∃ s' outs, runOut MoneyFlowIndex.nextBar (MoneyFlowIndex.fresh 2 : M
          norm_num))
     (by show ((3 : ℕ) : ℚ) * (1 / 2 ^ 20) ≤ 1 / 8; norm_num)
 
+
+/-- `mfi_reading_rounding` applies: the window's total flow dominates the drift bound on this stream -/
+example : ∃ s2 outs y, runOut MoneyFlowIndex.nextBar (MoneyFlowIndex.fresh 2 : MoneyFlowIndex (R ℚ))
+      (bar 3 1 2 10 :: ([bar 4 2 3 5, bar 2 1 1 7] ++ [bar 3 2 2 3])) = some (s2, outs ++ [y]) ∧
+    |y.v - (lastN 2 ((MFI.flows (bar 3 1 2 10 :: ([bar 4 2 3 5, bar 2 1 1 7] ++ [bar 3 2 2 3]))).map MFI.pp)).sum
+            / ((lastN 2 ((MFI.flows (bar 3 1 2 10 :: ([bar 4 2 3 5, bar 2 1 1 7] ++ [bar 3 2 2 3]))).map MFI.pp)).sum
+                + (lastN 2 ((MFI.flows (bar 3 1 2 10 :: ([bar 4 2 3 5, bar 2 1 1 7] ++ [bar 3 2 2 3]))).map MFI.np)).sum) * 100|
+      ≤ 100 * (2 * (3 * ((([bar 4 2 3 5, bar 2 1 1 7] ++ [bar 3 2 2 3] : List (Bar (R ℚ))).length : ℕ) : ℚ)
+                  * ((min ([bar 4 2 3 5, bar 2 1 1 7] ++ [bar 3 2 2 3] : List (Bar (R ℚ))).length 2 : ℕ) : ℚ) * (1 / 2 ^ 20) * 20)
+                / ((lastN 2 ((MFI.flows (bar 3 1 2 10 :: ([bar 4 2 3 5, bar 2 1 1 7] ++ [bar 3 2 2 3]))).map MFI.pp)).sum
+                    + (lastN 2 ((MFI.flows (bar 3 1 2 10 :: ([bar 4 2 3 5, bar 2 1 1 7] ++ [bar 3 2 2 3]))).map MFI.np)).sum)
+                + 12 * (1 / 2 ^ 20)) :=
+  MFI.mfi_reading_rounding 2 (by decide) (by decide) 20 (bar 3 1 2 10) [bar 4 2 3 5, bar 2 1 1 7] (bar 3 2 2 3)
+    (by decide +kernel) (by decide +kernel) (by decide +kernel) (by decide +kernel) (by decide +kernel)
+
 end NonVacuity
 
 end TaRs.Round.Tau
